@@ -153,11 +153,15 @@ def run (cfg : Config) : List Event :=
   e0 ++ r1.1 ++ interactAll .EOL (active cfg .EOL [] 0) [] r1.2
 
 /-- inputs the real code refuses: `_checkReactorCycleAttrs` (burn steps per cycle must have
-nCycles entries), `converged` unbound when the cap is 0, and no interface named "database"
-for `_performTightCoupling` to write with. -/
+nCycles entries); and, when a node is actually run with tight coupling on: no interface named
+"database" for `_performTightCoupling` to write with (AttributeError), or an iteration cap of 0 in
+a cycle that is not exempt (`converged` unbound). A run that halts before its first node never
+gets there. -/
 def wellFormed (cfg : Config) : Bool :=
+  let nodeWrites := (run cfg).filter (fun e => e.hook == .DbWrite)
   cfg.burnSteps.length == cfg.nCycles
-    && (!cfg.couplingOn || (cfg.maxIters ≥ 1 && cfg.stack.any (fun i => i.name == cfg.dbName)))
+    && (nodeWrites.isEmpty || cfg.stack.any (fun i => i.name == cfg.dbName))
+    && (nodeWrites.all (fun e => cfg.skipCycles.contains e.rc) || cfg.maxIters ≥ 1)
 
 /-! ### node arithmetic (armi/utils/__init__.py) -/
 
